@@ -1,34 +1,34 @@
-//@ unit str_bintext
+//@ unit str_sizetext
 //@ props C01
 //@ kind P
 //@ def quick BTN=8
 //@ def thorough BTN=24
-//@ enforce XMLString_binToTextUL
-//@ entry h_str_bintext
+//@ enforce XMLString_sizeToText
+//@ entry h_str_sizetext
 //@ note ND (digit count) is a harness-chosen witness pinned by the precondition (two shifts, or two comparisons with the power-of-ten table): every value has exactly one such ND, so nothing is lost
-//@ note P: iterations unbounded through loop contracts; every unsigned long value, every radix, every maxChars <= BTN (thorough: 24 covers every octal (22), decimal (20) and hex (16) result; longer binary results take the does-not-fit path); the target buffer has exactly the documented maxChars+1 elements, END-aligned
+//@ note P: iterations unbounded through loop contracts; every XMLSize_t value (sizeToText: same text as binToText(unsigned long)), every radix, every maxChars <= BTN (thorough: 24 covers every octal (22), decimal (20) and hex (16) result; longer binary results take the does-not-fit path); the target buffer has exactly the documented maxChars+1 elements, END-aligned
 //@ note radix 2/8/16: the complete output (digit count, every digit, terminator) is specified through shifts; radix 10: exact digit count (witness ND against a power-of-ten table: one division by ten removes one digit), digit characters and terminator here; the decimal digit VALUES are compared with the value in str_bintext_w (toFormat / 10^k as a loop invariant does not go through SAT)
 #define VERIF_DEFINE_GHOSTS
 #include "verif_prelude.h"
 XMLSize_t G;
 //@ include str_bintext_defs.inc
 
-/*@extract src/xercesc/util/XMLString.cpp XMLString::binToText
-as XMLString_binToTextUL
-params const unsigned long toFormat , XMLCh* const toFill
+/*@extract src/xercesc/util/XMLString.cpp XMLString::sizeToText
+as XMLString_sizeToText
+params const XMLSize_t toFormat , XMLCh* const toFill
 contract
 //@ include str_binToTextUL.contract.inc
 //@ include str_binToTextUL.loops.inc
 @*/
 
 struct { XMLCh a[BTN + 1]; } OUT;
-void h_str_bintext(void)
+void h_str_sizetext(void)
 {
-  unsigned long v; XMLSize_t maxChars; unsigned int radix;
+  XMLSize_t v; XMLSize_t maxChars; unsigned int radix;
   VERIF_INPUT(OUT); VERIF_INPUT(G); VERIF_INPUT(v); VERIF_INPUT(maxChars); VERIF_INPUT(radix); VERIF_INPUT(ND);
   VERIF_ASSUME(maxChars <= BTN);
   verif_thrown = 0;
-  XMLString_binToTextUL(v, OUT.a + (BTN + 1 - (maxChars + 1)), maxChars, radix, (MemoryManager *)0);
+  XMLString_sizeToText(v, OUT.a + (BTN + 1 - (maxChars + 1)), maxChars, radix, (MemoryManager *)0);
   VERIF_CANARY("after binToText");
   if (!verif_thrown && radix == 16 && v > 0xFFFF) VERIF_CANARY("binToText: hex with several digits reachable");
   if (!verif_thrown && radix == 10 && v > 99) VERIF_CANARY("binToText: decimal with several digits reachable");
